@@ -12,7 +12,7 @@ package redisemu
 //@ func dataStore.newDataStoreCommand
 //@ trusted allocates a command object with the next command id for this store
 //@ requires ds != nil
-//@ modifies alloc dataStore.commandNumber
+//@ modifies alloc ds->commandNumber
 //@ ensures result != nil && result.ds == ds && result.id != 0 && result.id != ds.multiLock
 
 //@ pred dssOK(dss *dataStoreSet) = dss != nil && dss.dbs != nil
@@ -62,12 +62,14 @@ package redisemu
 //@ safetyprop C13
 //@ requires dscOK(dsc)
 //@ requires [C08,C16] unlocked: !held && lockMode(dsc)
-//@ modifies dataStore.data redisDict.dirty redisDict.keyspace redisDict.owner redisDict.scratch alloc ghost.held
+//@ modifies dsc.ds->data alloc ghost.held
 // the fresh table becomes the keyspace of this store
 //@ ghostafter "dsc.ds.data = newRedisDict()" : dsc.ds.data.keyspace = true
 //@ ghostafter "dsc.ds.data = newRedisDict()" : dsc.ds.data.owner = dsc.ds
 //@ ghostafter "dsc.ds.data = newRedisDict()" : dsc.ds.data.scratch = false
 //@ ensures [C14] empty: dsc.ds.data != nil && dsc.ds.data.count == 0
+//@ ensures [C14] fresh.table: asref(dsc.ds.data) >= old(alloc())
+//@ ensures [C14] keyspace: dsc.ds.data.keyspace && dsc.ds.data.owner == dsc.ds && !dsc.ds.data.scratch
 //@ ensures [C19] dirty: dsc.ds.data.dirty
 //@ ensures released: !held
 
@@ -78,8 +80,10 @@ package redisemu
 //@ requires r3: !held
 //@ requires caller != nil ==> (dscOK(caller) && lockMode(caller))
 //@ requires ds.data.keyspace && ds.data.owner == ds && !ds.data.scratch
-//@ modifies dataStore.data dataStore.commandNumber redisDict.dirty redisDict.keyspace redisDict.owner redisDict.scratch alloc ghost.held
+//@ modifies ds->data ds->commandNumber alloc ghost.held
 //@ ensures [C14] empty: ds.data != nil && ds.data.count == 0
+//@ ensures [C14] fresh.table: asref(ds.data) >= old(alloc())
+//@ ensures [C14] keyspace: dbReady(ds)
 //@ ensures !held
 
 //@ func dataStoreSet.flushDb
@@ -92,3 +96,34 @@ package redisemu
 //@ ensures [C14] inplace: dss.dbs[index] == old(dss.dbs[index])
 //@ ensures [C14] empty: old(dss.dbs[index]) != nil ==> old(dss.dbs[index]).data.count == 0
 //@ ensures [C14] others: forall j int :: dss.dbs[j] == old(dss.dbs[j])
+
+// FLUSHALL: every database of the table is emptied (in place). The first loop
+// collects the databases: visited(j) is the ghost set of table indexes the
+// range has delivered, gCollected the set of collected databases with the
+// position of each in the list (gCollectedAt); the second loop empties them in
+// list order.
+//@ ghost gCollected refmapof:bool
+//@ ghost gCollectedAt refmapof:int
+//@ pred dbReady(d *dataStore) = d != nil && d.data != nil && d.waitingClients != nil && d.data.keyspace && d.data.owner == d && !d.data.scratch
+//@ func dataStoreSet.flushAll
+//@ prop C14
+//@ safetyprop none
+//@ mode int
+//@ requires dssOK(dss) && !held
+//@ requires wf: forall j int :: dbsWF(dss, j)
+//@ requires caller != nil ==> (dscOK(caller) && lockMode(caller))
+//@ requires free ready: forall j int :: haskey(dss.dbs, j) ==> dbReady(dss.dbs[j])
+//@ requires free none.yet: forall r *dataStore :: !gCollected[r]
+//@ ghostafter "all = append(all, ds)" : gCollected = mapset(gCollected, ds, true)
+//@ ghostafter "all = append(all, ds)" : gCollectedAt = mapset(gCollectedAt, ds, len(all)-1)
+//@ modifies dataStore.data dataStore.commandNumber alloc ghost.held ghost.gCollected ghost.gCollectedAt ghost.mutexHeld
+//@ loop 1 invariant [C14] collected: forall j int :: visited(j) ==> gCollected[dss.dbs[j]]
+//@ loop 1 invariant [C14] witness: forall r *dataStore :: gCollected[r] ==> 0 <= gCollectedAt[r] && gCollectedAt[r] < len(all) && all[gCollectedAt[r]] == r && dbReady(r)
+//@ loop 1 invariant [C14] listed: allsel(k, 0, len(all), all[k] != nil && dbReady(all[k])) && !held
+//@ loop 2 invariant [C14] emptied: forall r *dataStore :: gCollected[r] && gCollectedAt[r] < ri2 ==> r.data != nil && r.data.count == 0
+//@ loop 2 invariant [C14] listed: allsel(k, ri2, len(all), all[k] != nil && dbReady(all[k])) && !held
+//@ loop 2 invariant [C14] table: forall j int :: dss.dbs[j] == old(dss.dbs[j])
+//@ loop 2 invariant [C14] caller.ok: caller != nil ==> (dscOK(caller) && lockMode(caller))
+//@ ensures [C14] all.empty: forall j int :: haskey(dss.dbs, j) ==> dss.dbs[j].data != nil && dss.dbs[j].data.count == 0
+//@ ensures [C14] inplace: forall j int :: dss.dbs[j] == old(dss.dbs[j])
+//@ ensures !held
